@@ -44,11 +44,11 @@ def spelled_value(sp):
     return num_value(float(fr))
 
 
-def permissive_member(toks, lang):
+def permissive_member(toks, lang, keywords=None):
     """Is some reading of toks in the bounded language?  Keyword tokens may also be read as names;
     every CNAME-class token (a, abs, a keyword read as a name) is a function name directly before
     "(" and an ordinary name elsewhere (the language is enumerated with exactly these two)."""
-    idx = [i for i, t in enumerate(toks) if t in REJ_KEYWORDS]
+    idx = [i for i, t in enumerate(toks) if t in (keywords or REJ_KEYWORDS)]
     for mask in range(1 << len(idx)):
         s = list(toks)
         for j, i in enumerate(idx):
@@ -58,6 +58,74 @@ def permissive_member(toks, lang):
         if tuple(s) in lang:
             return True
     return False
+
+
+def lex_families(thorough):
+    """(name, Sigma, MaxLen, parameters of the bounded language that contains every sentence spellable over Sigma)."""
+    none = dict(IfOps=[], OrOps=[], AndOps=[], NotOps=[], Quants=[], RelOps=[], AddOps=[], MulOps=[], PowOps=[], NegOps=[],
+                Parens=False, Bools=[], Strs=[], Nums=['1'], Consts=[], CallFuns=[], SetLens=[], RangeL=[], RangeR=[],
+                Names=['a'], Vars=[], Fields=['a'], QVars=[], Start=0)
+    fams = []
+    n = 6 if thorough else 5
+    fams.append(('word', ['n', 'o', 't', 'E', '1', '.', '_', ' '], n, dict(none, NotOps=['not'], Consts=['E'], MaxTok=n)))
+    n = 5 if thorough else 4
+    fams.append(('op', ['a', '1', ' ', '<', '=', '!', '[', ']', '*', '-'], n,
+                 dict(none, RelOps=['<', '<=', '=', '!='], AddOps=['-'], MulOps=['*'], PowOps=['**'], NegOps=['-'], Fields=[], MaxTok=n)))
+    n = 5 if thorough else 4
+    fams.append(('ref', ['a', '@', '.', '1', '(', ')', ' ', 'e', '-', '+'], n,
+                 dict(none, Vars=['@v'], Parens=True, CallFuns=['abs'], AddOps=['-', '+'], NegOps=['-'], MaxTok=n)))
+    n = 6 if thorough else 5
+    fams.append(('str', ['"', 'a', ' ', '\\', '=', '\t'], n, dict(none, Strs=['$s'], RelOps=['='], Fields=[], MaxTok=n)))
+    return fams
+
+
+LEX_KEYWORDS = ['not', 'and', 'or', 'implies', 'iff', 'in', 'forall', 'exists', 'to', 'True', 'False', 'PI', 'INF', 'NAN', 'E']
+
+
+def lex_events(rep, thorough, new_ids, byid):
+    """Character level: every text of a bounded family, tokenised by the lexer machine (spec/HplLex.tla)."""
+    from harness import lex
+    events = []
+    for name, sigma, maxlen, params in lex_families(thorough):
+        texts, r = lex.enumerate_texts(sigma, maxlen)
+        rep.add_tlc(r)
+        sents, r2 = grammar.enumerate_language(params)
+        rep.add_tlc(r2)
+        lang = {tuple(x['toks']): x['ast'] for x in sents}
+        rep.count('lex_%s_texts' % name, len(texts))
+        rep.count('lex_%s_language' % name, len(lang))
+        nacc = nrej = nuns = 0
+        for text in sorted(texts):
+            info = texts[text]
+            g = info['greedy']
+            kind = None
+            if g is not None and not info['adj'] and lex.abstract(g) in lang:
+                try:
+                    exp = lex.fill(grammar.fix_var_names(lang[lex.abstract(g)]), g, spelled_value)
+                except lex.FillError as e:
+                    raise tlc.MachineryError('cannot put the tokens of %r into the tree of its sentence: %s' % (text, e))
+                kind = 'accept'
+            else:
+                readings = ([g] if g is not None else []) + info['others']
+                if any(permissive_member(list(lex.abstract(t)), lang, LEX_KEYWORDS) for t in readings):
+                    nuns += 1
+                    continue
+                kind, exp = 'reject', {'cls': 'None'}
+            for which in (('pkg', 'src') if (kind == 'accept' and len(text) <= 3) else ('pkg',)):
+                out, obj = call_parser('expression', text, which)
+                eid, sid = new_ids()
+                events.append({'id': eid, 'sid': sid, 'kind': kind, 'entry': 'expression', 'expected': exp, 'out': out,
+                               'observed': project(obj, ids=False) if out == 'ast' else {'cls': 'None'}})
+                byid[eid] = (text, which, [t[1] for t in (g or [])])
+                rep.clause('lex_%s:%s' % (kind, out))
+            if kind == 'accept':
+                nacc += 1
+            else:
+                nrej += 1
+        rep.count('lex_%s_must_accept' % name, nacc)
+        rep.count('lex_%s_must_reject' % name, nrej)
+        rep.count('lex_%s_unspecified' % name, nuns)
+    return events
 
 
 def mutants(sentences, sigma, maxlen):
@@ -160,6 +228,13 @@ def run(replay=None):
             rep.clause('reject:' + out)
         rep.count('mutants_must_reject_' + entry, nrej)
         rep.count('mutants_unspecified_' + entry, nuns)
+    # ---- character level: the lexer machine
+    def new_ids():
+        nonlocal eid, sid
+        eid += 1
+        sid += 1
+        return eid, sid
+    events.extend(lex_events(rep, thorough, new_ids, byid))
     # canaries: corrupted recordings that the trace spec must reject
     canaries = []
     for ev in events:
